@@ -323,6 +323,17 @@ func execC06(seg []Ev) []Ev {
 		case "bin":
 			name := toStr(in["name"])
 			e["name"] = name
+			// with a text as first operand the second one is "converted to the first operand's type": the text it is converted to
+			// is the manager's own conversion (how a number or a date is written is not C06's subject)
+			if a.Type() == variants.String && b != nil && b.Type() != variants.String && b.Type() != variants.Null {
+				var cv *variants.Variant
+				var cerr error
+				if o, _ := guarded(func() { cv, cerr = m.Convert(b.Clone(), variants.String) }); o == "ok" && cerr == nil && cv != nil && cv.Type() == variants.String {
+					bj := valJSON(b)
+					bj["c"] = cps(string([]byte(cv.AsString())))
+					e["b"] = bj
+				}
+			}
 			oc, r, det := opOutcome(func() (*variants.Variant, error) { return binCall(m, name, a, b) })
 			e["outcome"], e["r"] = oc, valJSON(r)
 			if h, ok := hostBin(name, a, b, mgr == "unsafe"); ok {
